@@ -336,7 +336,17 @@ class Exec:
             return L.exists(1, lambda x: v.mem(x))
         if isinstance(v, VNx):
             return L.exists(1, lambda x: v.N(x))
-        if isinstance(v, (VNode, VGraph, VObj, VFunc, VExpr, VDist)):
+        if isinstance(v, VGraph):
+            return L.exists(1, lambda x: v.directed.N(x))          # NxMixedGraph.__len__ counts the nodes
+        if isinstance(v, VObj) and isinstance(v.cls, ClassInfo):
+            # Python's truth protocol: __bool__, else __len__, else True
+            m = self.repo.find_method(v.cls, "__bool__")
+            if m is not None:
+                return self.truthy(self.call_y0(m, [], {}, self_val=v))
+            if self.repo.find_method(v.cls, "__len__") is not None:
+                raise OutOfSubset(f"truthiness of {v.cls.name} through __len__")
+            return L.T()
+        if isinstance(v, (VNode, VObj, VFunc, VExpr, VDist)):
             return L.T()
         if isinstance(v, VESeq):
             return L.Not(exprs.theory(self).is_nil(v.t))
